@@ -41,6 +41,10 @@ pub mod verif_std {
         ensures final(v)@ == old(v)@ + o@
     { v.extend(o.iter().cloned()) }
 
+    pub assume_specification<T, const N: usize> [<[T]>::first_chunk::<N>] (s: &[T]) -> (r: Option<&[T; N]>)
+        ensures r is Some <==> s@.len() >= N,
+                r is Some ==> r->Some_0@ == s@.subrange(0, N as int);
+
     pub broadcast axiom fn iter_seq_vec<T>(v: Vec<T>)
         ensures #[trigger] iter_seq::<T, Vec<T>>(v) == v@;
     pub broadcast axiom fn iter_seq_arr4(v: [u8; 4])
@@ -68,20 +72,36 @@ pub mod verif_std {
     pub broadcast axiom fn le32_inj(x: u32, y: u32) ensures #[trigger] le32(x) == #[trigger] le32(y) ==> x == y;
     pub broadcast axiom fn lei32_inj(x: i32, y: i32) ensures #[trigger] lei32(x) == #[trigger] lei32(y) ==> x == y;
 
+    // big-endian encoding: another uninterpreted function (nothing relates it to the little-endian one, so code that
+    // writes big-endian bytes where a layout asks for little-endian ones fails the layout clause)
+    pub uninterp spec fn be32(x: u32) -> Seq<u8>;
+    pub uninterp spec fn bei32(x: i32) -> Seq<u8>;
+    pub broadcast axiom fn be32_len(x: u32) ensures #[trigger] be32(x).len() == 4;
+    pub broadcast axiom fn bei32_len(x: i32) ensures #[trigger] bei32(x).len() == 4;
+
     pub trait VerifLe: Sized {
         spec fn le_spec(self) -> Seq<u8>;
+        spec fn be_spec(self) -> Seq<u8>;
         fn verif_to_le_bytes(self) -> (r: [u8; 4])
             ensures r@ == self.le_spec();
+        fn verif_to_be_bytes(self) -> (r: [u8; 4])
+            ensures r@ == self.be_spec();
     }
     impl VerifLe for u32 {
         open spec fn le_spec(self) -> Seq<u8> { le32(self) }
+        open spec fn be_spec(self) -> Seq<u8> { be32(self) }
         #[verifier::external_body]
         fn verif_to_le_bytes(self) -> (r: [u8; 4]) { self.to_le_bytes() }
+        #[verifier::external_body]
+        fn verif_to_be_bytes(self) -> (r: [u8; 4]) { self.to_be_bytes() }
     }
     impl VerifLe for i32 {
         open spec fn le_spec(self) -> Seq<u8> { lei32(self) }
+        open spec fn be_spec(self) -> Seq<u8> { bei32(self) }
         #[verifier::external_body]
         fn verif_to_le_bytes(self) -> (r: [u8; 4]) { self.to_le_bytes() }
+        #[verifier::external_body]
+        fn verif_to_be_bytes(self) -> (r: [u8; 4]) { self.to_be_bytes() }
     }
 
     // R13: `x.try_into()` for the two conversions the crate uses (Vec<u8> / &[u8] -> [u8; N]):
@@ -197,6 +217,6 @@ pub mod verif_std {
     { if a@ == b@ { assert(a =~= b); } }
     pub broadcast group verif_std_axioms {
         iter_seq_vec, iter_seq_arr4, iter_seq_refarr4, iter_seq_refvec, iter_seq_slice,
-        le32_len, lei32_len, le32_inj, lei32_inj, arr_of_view, arr_ref_of_view, arr_ext, vec_of_view, subrange_full,
+        le32_len, lei32_len, le32_inj, lei32_inj, be32_len, bei32_len, arr_of_view, arr_ref_of_view, arr_ext, vec_of_view, subrange_full,
     }
 }
